@@ -1,7 +1,7 @@
 use core::cell::UnsafeCell;
 use core::num::NonZeroUsize;
-use core::sync::atomic::Ordering::{Acquire, Release};
-use core::sync::atomic::{AtomicBool, AtomicUsize};
+use core::sync::atomic::Ordering::{AcqRel, Acquire, Release};
+use core::sync::atomic::{AtomicU8, AtomicUsize};
 
 #[cfg(any(feature = "async", doc))]
 use crate::iterators::{
@@ -38,10 +38,13 @@ pub struct ConcurrentMutRingBuf<S: Storage> {
     work_idx: CachePadded<AtomicUsize>,
     cons_idx: CachePadded<AtomicUsize>,
 
-    prod_alive: AtomicBool,
-    work_alive: AtomicBool,
-    cons_alive: AtomicBool,
+    /// Liveness flags of the three iterators, in one word so that "am I the last one" is decided atomically.
+    alive: AtomicU8,
 }
+
+const PROD_ALIVE: u8 = 1;
+const WORK_ALIVE: u8 = 2;
+const CONS_ALIVE: u8 = 4;
 
 impl<S: Storage<Item = T>, T> MutRB for ConcurrentMutRingBuf<S> {
     type Item = T;
@@ -129,9 +132,7 @@ impl<S: Storage<Item = T>, T> ConcurrentMutRingBuf<S> {
             work_idx: CachePadded::new(0.into()),
             cons_idx: CachePadded::new(0.into()),
 
-            prod_alive: AtomicBool::default(),
-            work_alive: AtomicBool::default(),
-            cons_alive: AtomicBool::default()
+            alive: AtomicU8::new(0)
         }
     }
 }
@@ -168,27 +169,40 @@ impl<S: Storage> IterManager for ConcurrentMutRingBuf<S> {
     }
 
     fn prod_alive(&self) -> bool {
-        self.prod_alive.load(Acquire)
+        self.alive.load(Acquire) & PROD_ALIVE != 0
     }
 
     fn work_alive(&self) -> bool {
-        self.work_alive.load(Acquire)
+        self.alive.load(Acquire) & WORK_ALIVE != 0
     }
 
     fn cons_alive(&self) -> bool {
-        self.cons_alive.load(Acquire)
+        self.alive.load(Acquire) & CONS_ALIVE != 0
     }
 
-    fn set_prod_alive(&self, alive: bool) {
-        self.prod_alive.store(alive, Release);
+    fn set_prod_alive(&self, alive: bool) -> bool {
+        self.set_alive(PROD_ALIVE, alive)
     }
 
-    fn set_work_alive(&self, alive: bool) {
-        self.work_alive.store(alive, Release);
+    fn set_work_alive(&self, alive: bool) -> bool {
+        self.set_alive(WORK_ALIVE, alive)
     }
 
-    fn set_cons_alive(&self, alive: bool) {
-        self.cons_alive.store(alive, Release);
+    fn set_cons_alive(&self, alive: bool) -> bool {
+        self.set_alive(CONS_ALIVE, alive)
+    }
+}
+
+impl<S: Storage> ConcurrentMutRingBuf<S> {
+    /// Updates one liveness flag with a single read-modify-write; returns `true` if no flag is set afterwards.
+    #[inline]
+    fn set_alive(&self, flag: u8, alive: bool) -> bool {
+        if alive {
+            self.alive.fetch_or(flag, AcqRel);
+            false
+        } else {
+            self.alive.fetch_and(!flag, AcqRel) & !flag == 0
+        }
     }
 }
 
